@@ -435,6 +435,12 @@ def coq_call(w, call):
     if k == 'transform':
         return f'CTransform {coq_fmap(call["f"])}'
     if k in ('zip', 'concat'):
+        if call.get('frozen') and not w.moments_uids() and not any(len(o) for o in call['others']):
+            # through the frozen view the (empty) result is a FrozenCircuit that is unfrozen again: a circuit built from its moments,
+            # without the append-placement cache that a fresh Circuit() (the result of Circuit.zip / concat_ragged) carries.  The
+            # cache of an EMPTY circuit is observable (insert of nothing at the end returns 1 with it, 0 without); for every other
+            # result cached and uncached placement agree (proved), so only this corner needs the cache-less constructor.
+            return 'CNew [] EARLIEST'
         others = '[' + '; '.join(coq_moments(w, o) for o in call['others']) + ']'
         return f'{"CZip" if k == "zip" else "CConcatRagged"} {others} {call["align"].upper()}'
     if k == 'insert':
